@@ -82,3 +82,24 @@ def main(argv):
 
 if __name__ == "__main__":
     main(sys.argv[1:])
+
+
+def dimension_note(mod):
+    """which cross-cutting workload dimensions (DESIGN.md 9.1) a property module applies, read off its source."""
+    import inspect
+    try:
+        src = inspect.getsource(mod)
+    except Exception:
+        return ""
+    notes = []
+    if "debug_dimension(" in src or 'case["debug"]' in src or "debug_level(" in src:
+        notes.append("a share of the cases with the package logger at DEBUG")
+    if "backend_dimension(" in src:
+        notes.append("a share of the integer-labelled edge-state cases on SqliteMap (single or bulk inserts, a third in a reused database file) or on an InMemMap built node by node")
+    if "scale_dimension(" in src or '"tiny"' in src:
+        notes.append("a share of the planar cases in a small coordinate unit (everything x 2^-7..2^-17)")
+    if "make_matcher" in src:
+        notes.append("leading matcher options passed positionally or by keyword depending on the configuration")
+    if "add_pre_trace" in src or "pre_trace" in src:
+        notes.append("a share of the matcher objects reused (another trace matched before / afterwards)")
+    return ("  Cross-cutting dimensions: " + "; ".join(notes) + ".") if notes else ""
